@@ -126,6 +126,48 @@ func runC06Dims(c *Ctx) {
 		}
 		return "?"
 	}
+	// the same decision kept as one number: the shortest position length seen (a running
+	// minimum over the keys of the length set, which admits every length from 2 up, and
+	// starts from a "none yet" value below 2). "shortest >= 3" then says both that some
+	// position has >= 3 elements and that none has exactly 2.
+	shortestAtLeast3 := func(g Guard) bool {
+		bo, ok := g.Cond.(*ssa.BinOp)
+		if !ok || !g.Truth || !onlyTrue {
+			return false
+		}
+		k, isC := constInt(stripConv(bo.Y))
+		if !isC || !((bo.Op == token.GEQ && k == 3) || (bo.Op == token.GTR && k == 2)) {
+			return false
+		}
+		phi, ok := stripConv(bo.X).(*ssa.Phi)
+		if !ok {
+			return false
+		}
+		h := phi.Block()
+		inLoop := func(b *ssa.BasicBlock) bool { return b == h || (h.Dominates(b) && reaches(b, h, nil)) }
+		// the loop ranges over a map[int]bool; its key is the element
+		var key ssa.Value
+		for _, in := range h.Instrs {
+			nx, ok := in.(*ssa.Next)
+			if !ok {
+				continue
+			}
+			rg, ok := nx.Iter.(*ssa.Range)
+			if !ok || !types.Identical(rg.X.Type().Underlying(), types.NewMap(types.Typ[types.Int], types.Typ[types.Bool])) {
+				continue
+			}
+			for _, r := range *nx.Referrers() {
+				if ex, ok := r.(*ssa.Extract); ok && ex.Index == 1 {
+					key = ex
+				}
+			}
+		}
+		if key == nil {
+			return false
+		}
+		idiom, isMin, from := sentinelMinMaxDir(phi, key, inLoop)
+		return idiom && isMin && from <= 2 && from > -1<<62
+	}
 	n := 0
 	for _, o := range origins {
 		if o.k != xyz {
@@ -135,6 +177,9 @@ func runC06Dims(c *Ctx) {
 		gs := o.gs
 		no2D, has3D := false, false
 		for _, g := range gs {
+			if shortestAtLeast3(g) {
+				no2D, has3D = true, true
+			}
 			switch flagKind(g.Cond) {
 			case "==2":
 				if !g.Truth {
